@@ -35,6 +35,11 @@ func segFilesLine(im *simfs.Image) string {
 func (h *harness) tailCase(r *rng, name string) {
 	c := &Case{Name: name}
 	c.Cfg = Cfg{MaxSeg: []uint32{1024, 2048, 8192, 65536}[r.intn(4)], MinSeg: 1 << 30, Frag: 0.5, FragStr: "0.5", HashSeed: uint32(r.next()), FSName: "sim"}
+	onePer := r.chance(20) // one record per segment: a damaged record empties its whole segment
+	if onePer {
+		c.Cfg.MaxSeg = 1024
+		h.stat("tail.oneper")
+	}
 	sim := simfs.New()
 	opts := c.Cfg.options(sim)
 	db, err := pogreb.Open(dbDir, opts)
@@ -53,6 +58,9 @@ func (h *harness) tailCase(r *rng, name string) {
 		} else {
 			// sizes around sector and bufio (4096) boundaries
 			n := []int{0, 1, 7, 60, 200, 490, 500, 510, 1000, 4070, 4090}[r.intn(11)]
+			if onePer {
+				n = 300 + r.intn(180)
+			}
 			room := int(c.Cfg.MaxSeg) - 512 - 10 - len(k)
 			if n > room {
 				n = r.intn(room + 1)
@@ -198,6 +206,26 @@ func (h *harness) tailCase(r *rng, name string) {
 		k := []byte("after")
 		err = db2.Put(k, []byte("x"))
 		h.emit("put %s %s %s", hx(k), hx([]byte("x")), errStr(err))
+		if r.chance(50) {
+			// ... also after a clean restart in between: writes of the new session must be replayed
+			// after everything the recovery kept
+			h.stat("tail.restart")
+			err = db2.Close()
+			h.emit("close %s", errStr(err))
+			db2, err = pogreb.Open(dbDir, o2)
+			if err != nil {
+				h.emit("open kind=clean res=%s", errStr(err))
+				h.emit("end")
+				continue
+			}
+			h.emit("open kind=clean res=ok seed=%d", db2.VerifHashSeed())
+			for i := 0; i < 3; i++ {
+				kk := keys[r.intn(len(keys))]
+				vv := patternBytes(1+r.intn(6), byte(r.next()))
+				err = db2.Put(kk, vv)
+				h.emit("put %s %s %s", hx(kk), hx(vv), errStr(err))
+			}
+		}
 		fs2.Kill()
 		h.emit("kill")
 		db3, err := pogreb.Open(dbDir, o2)
